@@ -52,7 +52,7 @@ def mk_kwn(ctx, nph=1, nel=1, ncls=2, hist=1, infinite=True, vm_sym=True):
     # recorded history: `hist` steps, symbolic where the analysed code reads it
     d = PrecipitationData(m.phases, m.elements, hist)
     d.time = ctx.reals("time", hist, (0.0, 1.0)) if hist > 1 else d.time
-    x0 = ctx.reals("x0", nel, (0.05, 0.3))
+    x0 = ctx.reals("x_alloy", nel, (0.05, 0.3))
     comp = ctx.reals("comp_hist", (hist, nel), (0.01, 0.3))
     for e in range(nel):
         comp[0, e] = x0[e]
